@@ -7,6 +7,18 @@ ENV = "GOFLAGS=-mod=mod GOPROXY=off GOSUMDB=off GOTOOLCHAIN=local GOWORK=off"
 
 # property id -> (technique, what is decided, what is not decided / trusted base, design ref)
 CLAIMS = {
+ "C10": ("cut-reachability on go/ssa CFGs (controllers, auth.CheckObjectAccess, posix retention/versioning) + value-origin slices",
+         "Every destructive backend call in the S3 handlers (PutObject, CopyObject, CompleteMultipartUpload, DeleteObject, DeleteObjects) is reachable only through the success edge of auth.CheckObjectAccess taken for the same bucket and keys; CheckObjectAccess fails closed on legal hold, COMPLIANCE and GOVERNANCE-without-bypass edges and examines every listed object; posix.PutObjectRetention cannot overwrite a stored COMPLIANCE retention and a GOVERNANCE one only through the bypass edge; versioning cannot be suspended when an enabled lock configuration exists; the bypass flag derives from the request header / the bypass policy verdict.",
+         "Does not decide date arithmetic, sequences of requests, or storage-level bypasses; ParseBucketLockConfigurationInput value handling is out of reach. One known finding (CompleteMultipartUpload has no lock check).",
+         "DESIGN.md §4 C10"),
+ "C15": ("struct-literal field origins + cut-reachability on go/ssa CFGs + parameter plumbing origins",
+         "Every AccessOptions literal carries Readonly<-c.readonly; every mutating backend call is behind a write-class decision carrying the switch; VerifyAccess and VerifyObjectCopyAccess test the switch before any root/admin shortcut and refuse exactly {WRITE, WRITE_ACP}; AclParser refuses bucket creation on the readonly edge; the flag is plumbed unchanged from cmd/versitygw through s3api.New, the router and controllers.New.",
+         "The admin API is outside the property; the set of mutating backend methods (T-MUTATING) is a frozen table; behaviour of backends themselves under read-only is not examined (they are not called).",
+         "DESIGN.md §4 C15"),
+ "C19": ("cut-reachability on go/ssa CFGs + who-may-call + struct-literal obligations per success response + store-after-go aliasing analysis + value-origin slices",
+         "SendEvent is reachable only on the err==nil edge of the two response helpers and is invoked nowhere else; every success response of an object-changing backend call carries the event sender, the event type tabled for that operation and (for created objects) the backend's ETag; event senders build per-event data per event (no store into memory already handed to a goroutine) and take batch keys from each decoded element; strings kept in the schema do not alias fiber's reused request buffers.",
+         "Delivery, ordering and exactly-once under concurrency are not decided; DeleteObjects emits per requested key from the request body (recorded in DESIGN.md); T-EVENT is a frozen table. Two known findings (size 0 in copy / multipart-complete events).",
+         "DESIGN.md §4 C19"),
  "C03": ("cut-reachability on go/ssa CFGs + value-origin slices over AccessOptions literals + route-table extraction",
          "Every backend.Backend call in every S3 handler is reachable only through the success edge of an access decision; each decision literal names this request's ACL/account/bucket/key, uses an action and permission admissible for the guarded backend method (frozen T-ACTION table), batch delete is decided per key, copy checks source and destination, VerifyAccess has no unconditional allow, admin routes sit behind IsAdmin, ListBuckets filters by owner.",
          "Does not decide that a given policy/ACL yields the right verdict (C14 covers the tables) nor the HTTP status; T-ACTION is a hand-frozen oracle; SSA/type information trusted.",
